@@ -1,4 +1,5 @@
 //! lv_front: query front end (C12) and the canary differential (C11).
+mod api;
 mod ast;
 mod canon;
 mod db;
@@ -6,6 +7,6 @@ mod gen;
 mod parse;
 
 fn main() {
-    let v: Vec<Box<dyn lvharness::suite::Suite>> = vec![Box::new(parse::Parse)];
+    let v: Vec<Box<dyn lvharness::suite::Suite>> = vec![Box::new(parse::Parse), Box::new(api::Api)];
     lvharness::cli_main(v);
 }
